@@ -368,6 +368,8 @@ def r6_consumers_and_teardown(ctx):
                       "%s consumes the harness outcome with `%s` (catch = deactivate the module and honour its stereotype; only reset reports unconditionally)" % (short(k), want),
                       s.where(), got)
     teardown_reaches_all(ctx, 'C13.R3')
+    from .C12 import teardown_regardless_of_activity
+    teardown_regardless_of_activity(ctx, 'C13.R3')
     # the event buffer is flushed unconditionally by buf_process
     ctx.set_rule('C13.R4')
     g = P.fns.get(NR + 'ctx::buf_process')
